@@ -55,7 +55,7 @@ static void sub_solve() {
         long cell = (offset + idx * 115) % NCELL;
         std::string co = COARS[cell % 2], rl = RELAX[(cell / 2) % 9], sv = SOLV[(cell / 18) % 8], ds = DIRECT[(cell / 144) % 2]; bool repart = (cell / 288) % 2;
         if (thin) { static const char *OTHER[] = {"spai0", "damped_jacobi", "gauss_seidel", "ilu0", "iluk", "ilup", "ilut", "spai1"}; static const char *TS[] = {"cg", "bicgstab", "gmres", "cg", "idrs", "fgmres", "cg", "lgmres", "bicgstabl", "richardson"};
-            rl = k % 3 == 0 ? "chebyshev" : OTHER[(k / 3 * 2 + k % 3 - 1 + vf::ctx().seed) % 8]; sv = TS[(k / 3 + (k % 3) * 3 + sr) % 10]; co = COARS[(k / 3 + k) % 2 ? 1 : 0]; }
+            rl = k % 3 == 0 ? "chebyshev" : OTHER[(k / 3 * 2 + k % 3 - 1 + vf::ctx().seed) % 8]; sv = TS[(k / 3 + (k % 3) * 3 + sr) % 10]; co = COARS[(k / 3 + k % 3) % 2]; }
         { std::string fr = vf::opt("force_relax"), fs = vf::opt("force_solver"); if (!fr.empty()) rl = fr; if (!fs.empty()) sv = fs; }      // targeted runs (development / replay of a cell family)
         Problem p; Part rp; Rng rpart(cs ^ 0x5bd1e9955bd1e995ULL);     // own stream for the partition: every other draw is independent of the rank count
         if (!thin) { p = make_problem(r, 300, (int)vf::tier(900, 1500)); rp = vfm::random_part(p.A.n, w.size, rpart); }
@@ -63,7 +63,7 @@ static void sub_solve() {
             g.contrast = r.coin(0.6) ? 1.0 : r.logu(1.0, 10.0); g.aniso = r.coin(0.7) ? 1.0 : r.logu(0.1, 1.0);
             p.A = vf::grid_diffusion(g, r); validate_spd_mmatrix(p.A); p.family = std::string("G1-") + (g.nine ? "9pt" : "5pt") + "-thin-slab"; p.f = vf::random_vector(p.A.n, r); p.x0.assign(p.A.n, 0.0);
             rp.assign(w.size + 1, 0); for (int q = 0; q <= w.size; ++q) rp[q] = (ptrdiff_t)q * lines * g.nx; vf::obs_sum("thin_slab_solves"); if (rl == "chebyshev") vf::obs_sum("thin_slab_chebyshev_solves"); }
-        bool budget = r.coin(0.2), left = !budget && (sv == "bicgstab" || sv == "bicgstabl" || sv == "gmres" || sv == "lgmres") && r.coin(0.25), rebuildable = r.coin();
+        bool budget = r.coin(0.2) && !thin, left = !budget && (sv == "bicgstab" || sv == "bicgstabl" || sv == "gmres" || sv == "lgmres") && r.coin(0.25), rebuildable = r.coin();
         size_t maxiter = budget ? (size_t)r.range(3, 9) : (sv == "richardson" ? 1000 : 300); double tol = 1e-8;
         if (!budget) maxiter = (size_t)vf::opt_int("force_maxiter", (long)maxiter);     // development only
         ptree prm; prm.put("precond.coarsening.type", co); prm.put("precond.relax.type", rl); prm.put("precond.direct.type", ds); prm.put("precond.repart.type", "merge");
